@@ -24,8 +24,13 @@ def stepLine (s : St) (n : Nat) (ln : Line) : St × List String :=
   match ln.op with
   | "reset" => ({ kind := ln.args.getD 0 "mem", start := n }, diff n ln ["ok"] ++ [s!"COV reset.{ln.args.getD 0 "mem"}"])
   | "stop" => ({ s with batched := true }, diff n ln ["ok"] ++ ["COV batched-path"])
+  | "fault" => (s, diff n ln ["ok"] ++ ["COV fault.batched-sync-fails"])
   | "c" =>
     let a := ln.args
+    if a.getD 3 "" == "wx" then
+      -- a batched write whose fsync was made to fail: reported as an error, no part of the history
+      (s, (if ln.outs == ["err", "0"] then [] else [s!"DIFF {n} wx model=[err 0] impl=[{String.intercalate " " ln.outs}]"]) ++ ["COV wx.failed-batch-reported"])
+    else
     let body : Line := { op := a.getD 3 "", args := a.drop 4, outs := ln.outs }
     match opOfLine body with
     | none => (s, [s!"DIFF {n} unknown-op {body.op}"])
